@@ -150,6 +150,9 @@ def run(chk, prog, tier):
 
     # ---- read sites -------------------------------------------------------------
     _read_sites(chk, prog, M, mk, fx)
+    # the per-line copy the readers look at keeps the SIB bits of the instance (only the mov-immediate bits are resolved per line)
+    from valib import opt as OPTM
+    OPTM.record_bits_rule(chk, prog)
 
     # ---- the model ---------------------------------------------------------------
     if any(o.status != "ok" for o in chk.obs if o.rule == "XFER"):
